@@ -73,6 +73,7 @@ def cs(s):
 # ---------------------------------------------------------------------------
 EXHAUSTIVE = [
     ('is_comment', ' \tcCx1', 4, 6, [('', '')]),
+    ('is_comment', ' cx', 7, 9, [('', '')]),
     ('has5', ' \tx\x0b', 6, 8, [('', '')]),
     ('amp_cont', ' &$x\t', 5, 7, [('', '')]),
     ('expand_tabs', ' \tx', 8, 10, [('', '')]),
@@ -102,7 +103,7 @@ EXHAUSTIVE = [
 
 # a line alphabet for get_cards / block_cards: all sequences up to a length
 LINE_ALPHABET = ['1 x', '     y', 'c k', ' z &', 'w $ &', '& $ r', '\tq', 'C',
-                 '    c', 'v & $ r', '    5', '   \t t', 'cx', 'x &  ']
+                 '    c', 'v & $ r', '    5', '   \t t', 'cx', 'x &  ', '     c u']
 
 
 BUCKET = 4000       # strings per fingerprint bucket (about)
@@ -116,6 +117,8 @@ def exhaustive_cases(tier):
     for name, alpha, nq, nt, fixes in EXHAUSTIVE:
         nmax = nq if tier == 'quick' else nt
         fid = I.FID[name]
+        if not I.available(name):
+            continue        # counted in prepare_exhaustive
         for pre, suf in fixes:
             for n in range(0, nmax + 1):
                 k = 0
@@ -129,6 +132,9 @@ def exhaustive_cases(tier):
 def prepare_exhaustive(res, tier):
     buckets = exhaustive_cases(tier)
     cases, total = [], 0
+    for name in sorted({e[0] for e in EXHAUSTIVE}):
+        if not I.available(name):
+            res.count('exhaustive:skipped (internal name gone):' + name)
     for name, fid, alpha, n, pre, suf in buckets:
         fp = I.fingerprint(fid, alpha, n, pre, suf)
         total += len(alpha) ** n
